@@ -252,6 +252,7 @@ impl FileSystem for MemoryFS {
         crate::verif_hooks::yield_point("memory::append_file::write");
         let handle = self.handle.write().unwrap();
         let file = handle.files.get(path).ok_or(VfsErrorKind::FileNotFound)?;
+        ensure_file(file)?;
         let mut content = Cursor::new(file.content.as_ref().clone());
         content.seek(SeekFrom::End(0))?;
         let writer = WritableFile {
